@@ -70,7 +70,20 @@ pub fn judge(
     // does merely obtaining mutable access flag?
     let flag_on_get = tracked == 1;
     match path {
-        Path::Get | Path::ReadGet | Path::LendGetShared | Path::RestrictGetOther | Path::RestrictReadGetOther => {
+        Path::GenericRemove => {
+            // returns nothing; a live member is removed and destroyed, everything else is a no-op
+            if out != Out::Absent {
+                return bad("()".into());
+            }
+            if let Some(s) = m {
+                if s != ZST_SNAP && !ledger::is_dropped(s.id) {
+                    return Err(("C08", format!("GenericWriteStorage::remove: value {} was not destroyed", s.id)));
+                }
+                v.upd = Upd::Remove;
+                v.ev.ir.push((false, id));
+            }
+        }
+        Path::Get | Path::GenericGet | Path::ReadGet | Path::LendGetShared | Path::RestrictGetOther | Path::RestrictReadGetOther => {
             if matches!(path, Path::RestrictGetOther | Path::RestrictReadGetOther) && storage_empty {
                 if out != Out::NotReached {
                     return bad("NotReached (storage empty)".into());
@@ -85,7 +98,7 @@ pub fn judge(
                 return bad(format!("{:?}", exp));
             }
         }
-        Path::GetMut | Path::LendGetMut | Path::RestrictGetOtherMut => {
+        Path::GetMut | Path::GenericGetMut | Path::LendGetMut | Path::RestrictGetOtherMut => {
             if path == Path::RestrictGetOtherMut && storage_empty {
                 if out != Out::NotReached {
                     return bad("NotReached (storage empty)".into());
@@ -123,7 +136,7 @@ pub fn judge(
                 return bad(format!("Bool({})", m.is_some()));
             }
         }
-        Path::Insert => match out {
+        Path::Insert | Path::GenericInsert => match out {
             Out::InsOk(old, new) if alive => {
                 if old != m {
                     return bad(format!("InsOk({:?}, _)", m));
